@@ -28,14 +28,23 @@ HOWS = ["insert", "replace", "full", "overlap_nested", "overlap_partial", "emerg
         "modify_insert", "modify_full", "modify_overlap_nested", "delete", "delete_none",
         "hit", "miss", "tick", "sweep", "sweep_none", "stats"]
 
+# outcomes that must have been exercised by a message whose match has prefixes on BOTH
+# nw_src and nw_dst, both spelled with non-zero bits beyond the prefix ("/sd"), resp. by a
+# message spelled with junk in its wildcarded fields ("/wild")
+HOWS_SPELT = ["insert/sd", "replace/sd", "modify/sd", "modify_insert/sd", "delete/sd",
+              "delete_none/sd", "overlap_nested/sd", "overlap_partial/sd", "full/sd", "stats/sd",
+              "insert/wild", "replace/wild", "delete/wild", "delete_none/wild", "stats/wild",
+              "hit/src", "miss/src"]
+
 # (config, needs clock, adapter params)
 MC_QUICK = [("MC_cmd.cfg", False), ("MC_time_late.cfg", True), ("MC_time_early.cfg", True),
-            ("MC_nw.cfg", False)]
+            ("MC_nw.cfg", False), ("MC_sd.cfg", False)]
 MC_THOROUGH = MC_QUICK + [("MC_cmd3.cfg", False), ("MC_time2_late.cfg", True),
                           ("MC_time2_early.cfg", True)]
 EDGES_Q = [("EX_edges_cmdQ.cfg", dict(max_entries=2, late=True)),
            ("EX_edges_nwQ.cfg", dict(max_entries=2, late=True, prios="edge", cookies="edge",
                                      hostbits=True)),
+           ("EX_edges_sdQ.cfg", dict(max_entries=2, late=True, cookies="edge")),
            ("EX_edges_time1_late.cfg", dict(max_entries=1, late=True)),
            ("EX_edges_time1_early.cfg", dict(max_entries=1, late=False, scale=16000)),
            ("EX_edges_time2_late.cfg", dict(max_entries=2, late=True, scale=16000, prios="low")),
@@ -56,8 +65,26 @@ def _parallel(jobs, workers=6):
 
 def _count_hows(behs, seen):
   for b in behs:
+    prev = []
     for st in b:
       seen[st["how"]] = seen.get(st["how"], 0) + 1
+      a = st["args"]
+      tags = []
+      if st["a"] in ("FlowMod", "Stats"):
+        m = a["m"]
+        if 0 < m["sl"] < 32 and 0 < m["nl"] < 32 and a["sp"] & 3 == 3:
+          tags.append("sd")
+        if a["sp"] & 4 and not m["ex"]:
+          tags.append("wild")
+      elif st["a"] == "Packet":
+        # the frame was counted by an entry with an nw_src prefix (hit), resp. passed one by (miss)
+        if any(e["m"]["sl"] and not e["m"]["ex"] and (st["how"] == "miss" or e not in prev)
+               for e in st["exp"]["tbl"]):
+          tags.append("src")
+      for t in tags:
+        k = st["how"] + "/" + t
+        seen[k] = seen.get(k, 0) + 1
+      prev = st["exp"]["tbl"]
 
 
 def _nontrivial(beh):
@@ -130,14 +157,14 @@ def run(ctx):
 
   # 1. the property on the model ------------------------------------------
   mcs = MC_QUICK if quick else MC_THOROUGH
-  res = _parallel([(lambda c=c: tlc.run(SPEC, MOD, c, tag="C04", workers=4 if quick else 8))
-                   for c, _ in mcs], workers=4)
+  res = _parallel([(lambda c=c: tlc.run(SPEC, MOD, c, tag="C04", workers=3 if quick else 8))
+                   for c, _ in mcs], workers=5 if quick else 4)
   for (cfg, clocked), r in zip(mcs, res):
     if r.violated:
       raise tlc.TLCError("spec violates its own property %s (%s):\n%s" %
                          (r.violated, cfg, r.error_trace))
     need = [a for a in ACTIONS if clocked or a not in TIMELESS]
-    if "nw" in cfg:
+    if "nw" in cfg or "sd" in cfg:
       need = [a for a in need if a != "RejectEmerg"]
     if "time" in cfg:
       need = [a for a in need if a not in ("RejectEmerg", "RefuseOverlap")]
@@ -161,7 +188,7 @@ def run(ctx):
   for cfg, _ in deep:
     jobs.append(lambda c=cfg: tlc.run(SPEC, MOD, c, workers=1, coverage=False, tag="C04",
                                       timeout=1500))
-  out = _parallel(jobs, workers=6 if quick else 8)
+  out = _parallel(jobs, workers=7 if quick else 8)
   lap("exports")
   r = out[0]
   behs = [sort_exp(b) for b in r.tagged("H")]
@@ -214,7 +241,7 @@ def run(ctx):
     st = core.replay(ctx, ADAPTER, behs, params=dict(max_entries=3, late=late), chunk=10,
                      nontrivial=_nontrivial)
     ctx.notes["replay_sim_" + n] = dict(behaviours=len(behs), depth=60, **st)
-  missing = [h for h in HOWS if not hows.get(h)]
+  missing = [h for h in HOWS + HOWS_SPELT if not hows.get(h)]
   if missing:
     raise tlc.TLCError("vacuous replay: outcomes never exercised: %s" % missing)
   ctx.notes["outcomes_replayed"] = hows
@@ -253,6 +280,7 @@ def run(ctx):
                  wf=ev["wf"])
       if runs[t][2]["dontcare_bits"]:
         sig["dontcare_bits"] = True
+        sig["dontcare"] = runs[t][2]["dontcare"]
       if ev["a"] == "FlowMod":
         sig["cmd"] = ev["args"]["cmd"]
         sig["errors"] = sorted(m.get("code", "") for m in raw.get("msgs", [])
@@ -299,20 +327,29 @@ def _expected(res):
 # --------------------------------------------------------------------------
 # random driver (runs in worker processes)
 
-def _M(ip, dd, nl=0, nv=0, ex=0):
-  return dict(ip=ip, dd=dd, nl=nl, nv=nv, ex=ex)
+def _M(ip, dd, nl=0, nv=0, ex=0, sl=0, sv=0):
+  return dict(ip=ip, dd=dd, sl=sl, sv=sv, nl=nl, nv=nv, ex=ex)
 
 
 H1 = 167837697
+SRC, SRC2, SRC3 = 335609865, 335675401, 352321545        # 20.1.0.9, 20.2.0.9, 21.0.0.9
 MATCHES = [_M(0, 0), _M(1, 0), _M(2, 0), _M(0, 1), _M(0, 2), _M(1, 1), _M(2, 1),
            _M(0, 0, 8, 10), _M(0, 0, 16, 2561), _M(0, 0, 16, 2562), _M(1, 0, 16, 2561),
            _M(1, 1, 32, H1)]
-EXACT = _M(1, 1, 32, H1, 1)
-PKTS = [dict(ip=1, dd=1, na=H1, ref=1, len=60), dict(ip=1, dd=1, na=H1, ref=0, len=62),
-        dict(ip=1, dd=2, na=167903233, ref=0, len=100), dict(ip=2, dd=1, na=184549377, ref=0, len=200),
-        dict(ip=2, dd=2, na=H1, ref=0, len=1000), dict(ip=2, dd=1, na=H1 + 1, ref=0, len=64)]
+# nw_src prefixes alone and with nw_dst prefixes (nested, overlapping, disjoint)
+MATCHES_SD = [_M(0, 0, sl=8, sv=20), _M(0, 0, sl=16, sv=5121), _M(0, 0, 8, 10, sl=8, sv=20),
+              _M(0, 0, 8, 10, sl=16, sv=5121), _M(0, 0, 16, 2561, sl=8, sv=20),
+              _M(0, 0, 16, 2561, sl=16, sv=5121), _M(0, 0, 16, 2561, sl=16, sv=5122),
+              _M(1, 0, sl=16, sv=5121), _M(0, 0, 32, H1, sl=32, sv=SRC)]
+EXACT = _M(1, 1, 32, H1, 1, sl=32, sv=SRC)
+PKTS = [dict(ip=1, dd=1, ns=SRC, na=H1, ref=1, len=60), dict(ip=1, dd=1, ns=SRC, na=H1, ref=0, len=62),
+        dict(ip=1, dd=2, ns=SRC, na=167903233, ref=0, len=100),
+        dict(ip=2, dd=1, ns=SRC, na=184549377, ref=0, len=200),
+        dict(ip=2, dd=2, ns=SRC, na=H1, ref=0, len=1000), dict(ip=2, dd=1, ns=SRC, na=H1 + 1, ref=0, len=64),
+        dict(ip=1, dd=1, ns=SRC2, na=H1, ref=0, len=66), dict(ip=2, dd=2, ns=SRC + 1, na=167903233, ref=0, len=102),
+        dict(ip=2, dd=1, ns=SRC3, na=H1, ref=0, len=202)]
 ENTRY_KEYS = {"m", "p", "a", "i", "h", "r", "c", "g", "t", "n", "b"}
-MATCH_KEYS = {"ip", "dd", "nl", "nv", "ex"}
+MATCH_KEYS = {"ip", "dd", "sl", "sv", "nl", "nv", "ex"}
 MSG_KEYS = {"removed": {"t", "m", "p", "why", "n", "b", "i", "c"}, "error": {"t", "code"},
             "packet_in": {"t", "port", "total"}}
 BLANK = dict(tbl=[], msgs=[], out=[])
@@ -365,6 +402,10 @@ def drive(arg):
               prios=rnd.choice(["plain", "edge", "low"]), cookies=rnd.choice(["plain", "edge"]),
               hostbits=rnd.choice([False, True]))
   ad = Adapter(**meta)
+  # every other history lives among the nw_src x nw_dst prefixes; the spelling of each
+  # message (which ignored bits are non-zero) is drawn per message
+  sd = seed % 2 == 1
+  spells = [0, 0, 1, 2, 3, 3, 4, 7] if sd else [0, 0, 0, 1, 4, 5]
   tr = []
   raws = {}
   for idx in range(n):
@@ -374,6 +415,8 @@ def drive(arg):
       cmd = rnd.choices(["ADD", "MOD", "MODS", "DEL", "DELS"], [40, 15, 10, 20, 15])[0]
       if rnd.random() < 0.08:
         m, prio = EXACT, 1
+      elif sd:
+        m, prio = rnd.choice(MATCHES_SD if rnd.random() < 0.8 else MATCHES), rnd.choice([5, 5, 5, 7])
       else:
         m, prio = rnd.choice(MATCHES), rnd.choice([5, 5, 7])
       args = dict(cmd=cmd, m=m, prio=prio, acts=rnd.choice(["none", "o3", "o4", "o34"]),
@@ -381,7 +424,7 @@ def drive(arg):
                   rem=rnd.choice([0, 1, 1]), chk=rnd.choice([0, 0, 1]),
                   em=1 if rnd.random() < 0.04 else 0,
                   outp=rnd.choice([0, 0, 0, 3, 4, 9]) if cmd in ("DEL", "DELS") else 0,
-                  cookie=rnd.randint(1, 3))
+                  cookie=rnd.randint(1, 3), sp=rnd.choice(spells))
       if args["em"] and cmd != "ADD":
         args["em"] = 0
     elif k < 0.65:
@@ -391,7 +434,8 @@ def drive(arg):
     elif k < 0.90:
       a, args = "Sweep", dict(x=0)
     else:
-      a, args = "Stats", dict(m=rnd.choice(MATCHES + [EXACT]), outp=rnd.choice([0, 0, 3, 4, 9]))
+      a, args = "Stats", dict(m=rnd.choice((MATCHES_SD if sd else MATCHES) + [EXACT]),
+                              outp=rnd.choice([0, 0, 3, 4, 9]), sp=rnd.choice(spells))
     try:
       obs = ad.step(a, args)
     except core.Machinery:
@@ -406,4 +450,5 @@ def drive(arg):
     if not wf:
       break
   meta["dontcare_bits"] = ad.sent_junk
+  meta["dontcare"] = sorted(ad.junk_kinds)
   return tr, raws, meta
